@@ -105,13 +105,11 @@ def run(ctx):
         res.add(Finding('C11', 'C11.b', 'R-WHOCALLS', f.file if f else '?', f.qualname if f else '<module>', n.lineno, norm(n),
                         'the non-copying accessor is used outside get_data / the recording-phase extractor: the stored object itself is handed out'))
     direct_sites = []
+    sel = accessor_selector(ext)
     for m in repo.modules.values():
         for n in ast.walk(m.tree):
             if isinstance(n, ast.Call) and isinstance(n.func, ast.Attribute) and n.func.attr == ext.name:
-                da = [k for k in n.keywords if k.arg == 'direct_access']
-                pos = n.args[1] if len(n.args) > 1 else None
-                v = da[0].value if da else pos
-                if v is not None and not (isinstance(v, ast.Constant) and v.value is False):
+                if selects_direct(ext, sel, n) is not False:
                     direct_sites.append((enclosing(repo, m, n), n))
     okd = all(f is roles.post_metadata for f, n in direct_sites) and len(direct_sites) >= 1
     cb.instance('direct_access requested only by the recording-phase metadata step (%d site(s))' % len(direct_sites), roles.post_metadata.qualname, okd)
@@ -246,6 +244,14 @@ def run(ctx):
                         'on some path the copy flag is set, copying did not fail, and the datum recorded for the intercepted input did not pass '
                         'through pickle_copy: later mutation of the live object changes the recording',
                         witness=dx.path_to(node, st) if node is not None and (node.id, st.key()) in dx.pred else None))
+    # the copy flag is read from the parameters installed when the scope was opened: nothing else replaces them
+    pw = [(m, n) for m in roles.cls.methods.values() if m not in (roles.init, roles.start, roles.reset) for n in ast.walk(m.node)
+          if isinstance(n, ast.Assign) and any(self_attr(t) == roles.params for t in n.targets)]
+    ce.instance('recording parameters (copy flag) are installed by the scope only, never replaced while it is open', roles.cls.name, not pw)
+    for m, n in pw:
+        res.add(Finding('C11', 'C11.e', 'R-DOM', m.file, m.qualname, n.lineno, norm(n)[:120],
+                        '%s replaces the parameters of the open recording: copy-on-interception configured for the operation class is silently dropped '
+                        'for the rest of that recording' % m.qualname))
     # output arguments
     ro = roles.record_output
     reads_flag = any(isinstance(n, ast.Attribute) and n.attr == flag_attr for n in ast.walk(ro.node))
@@ -260,3 +266,53 @@ def run(ctx):
                         'the arguments of an intercepted output are recorded uncopied although copy-on-interception is enabled: appending to a list '
                         'after it was sent to the output changes what is recorded'))
     return res
+
+
+def accessor_selector(ext):
+    """the conditional expression in the extractor that chooses between get_data and get_data_direct: (test, direct_when_true)"""
+    for n in ast.walk(ext.node):
+        if isinstance(n, ast.IfExp):
+            b, o = n.body, n.orelse
+            names = lambda e: {x.attr for x in ast.walk(e) if isinstance(x, ast.Attribute)}
+            if 'get_data_direct' in names(b) and 'get_data' in names(o):
+                return n.test, True
+            if 'get_data' in names(b) and 'get_data_direct' in names(o):
+                return n.test, False
+    for n in ast.walk(ext.node):
+        if isinstance(n, ast.If):
+            b = {x.attr for s_ in n.body for x in ast.walk(s_) if isinstance(x, ast.Attribute)}
+            o = {x.attr for s_ in n.orelse for x in ast.walk(s_) if isinstance(x, ast.Attribute)}
+            if 'get_data_direct' in b and 'get_data_direct' not in o:
+                return n.test, True
+            if 'get_data_direct' in o and 'get_data_direct' not in b:
+                return n.test, False
+    raise AnalysisError('anchor-lost role=accessor selection in the output extractor')
+
+
+def selects_direct(ext, sel, call):
+    """True / False if this call site makes the extractor use get_data_direct, None if it cannot be decided"""
+    from ..predeval import eval_pred, Undecidable
+    test, direct_when_true = sel
+    params = ext.params
+    env = {}
+    for p in params:
+        d = ext.param_default(p)
+        if isinstance(d, ast.Constant):
+            env[p] = d.value
+    for i, a in enumerate(call.args):
+        if i < len(params):
+            if isinstance(a, ast.Constant):
+                env[params[i]] = a.value
+            else:
+                env.pop(params[i], None)
+    for k in call.keywords:
+        if k.arg in params:
+            if isinstance(k.value, ast.Constant):
+                env[k.arg] = k.value.value
+            else:
+                env.pop(k.arg, None)
+    try:
+        v = bool(eval_pred(test, env, ext.module))
+    except Undecidable:
+        return None
+    return v == direct_when_true
